@@ -19,10 +19,18 @@ var coldFirst = map[string]func(){
 	"marshaltext":      func() { _, _ = size.Size(1000).MarshalText() },
 	"marshaljson":      func() { _, _ = size.Size(1024).MarshalJSON() },
 	"parse":            func() { _, _ = size.DefaultParser("1 KiB", 0) },
+	"string of 2^64-1": func() { _ = size.Size(1<<64 - 1).String() },
+	"pretty of 2^64-1": func() { _ = size.Size(1<<64 - 1).PrettyString() },
+	"string of zero":   func() { _ = size.Size(0).String() },
+	"pretty of 2^63":   func() { _ = size.Size(1 << 63).PrettyString() },
 }
 
 func TestColdStart(t *testing.T) {
 	vkit.ColdMain(t, "C13", coldFirst, func(w *vkit.W) {
+		// the values of the first calls come first: what the first call of the process left behind is met by the same value again
+		for _, v := range []uint64{1<<64 - 1, 1 << 63, 0, 2048, 1234567, 1 << 40, 1000, 1 << 20} {
+			judge(Case{S: v}, w)
+		}
 		for k := uint(0); k < 64; k++ {
 			judge(Case{S: 1 << k}, w)
 			judge(Case{S: 1<<k + 1<<(k/2)}, w)
